@@ -16,6 +16,7 @@ RULE = (
     "Combiner.collect_elems is evaluated at z beyond the partonic threshold z_max=1/(1+4m2/Q2) and must return exactly 0; (cc) a probe on "
     "conv.convolve_vector must see x(1+m2/Q2) for heavy CC kernels, and all light-quark rows must vanish when that exceeds 1. "
     "Distinct = (mode, kind, flavour, side, PTO); non-trivial = a threshold predicate was decided on a run whose above-threshold partner is non-zero."
+    " With several massive quarks (FFNS, NfFF 3/4) every quark whose own threshold is still closed must be invisible (<kind>_light bit-identical when the masses from that quark upwards are raised by 50%) and must count like an absent quark (bit-identical to the same card in FONLL-FFNS, where only the lightest is massive). CC: twin points at the same Q2 and another x must be served by the very same kernel functions (reg/sing/loc evaluated at common arguments, bitwise)."
 )
 ASSUMPTIONS = ["'+-1 ulp' cases only for exactly representable constructions; random cases keep |W2/4m2-1| >= 1e-9"]
 M2 = {"charm": "mc", "bottom": "mb", "top": "mt"}
